@@ -230,6 +230,14 @@ const pathBudget = 200000
 // isStop (optional) ends a path early at an instruction. Each block is visited
 // at most twice per path. Returns false when the budget is exceeded.
 func enumPaths(fn *ssa.Function, start ssa.Instruction, isEvent func(ssa.Instruction) bool, isStop func(ssa.Instruction) bool, atExit func(pathExit)) bool {
+	return enumPathsX(fn, start, isEvent, isStop, nil, atExit)
+}
+
+// enumPathsX additionally takes evalCond: an optional evaluator that can
+// decide a branch condition from the path state (e.g. a load of a field of a
+// freshly built literal selected by a phi) so that infeasible edges are pruned.
+func enumPathsX(fn *ssa.Function, start ssa.Instruction, isEvent func(ssa.Instruction) bool, isStop func(ssa.Instruction) bool,
+	evalCond func(st *pathState, cond ssa.Value) (val bool, known bool), atExit func(pathExit)) bool {
 	if len(fn.Blocks) == 0 {
 		return true
 	}
@@ -284,6 +292,11 @@ func enumPaths(fn *ssa.Function, start ssa.Instruction, isEvent func(ssa.Instruc
 					}
 					if known, has := st.Facts[core]; has && known != valCore {
 						continue // contradictory valuation of the same SSA value
+					}
+					if evalCond != nil {
+						if v, known := evalCond(st, core); known && v != valCore {
+							continue
+						}
 					}
 					ns := st.clone()
 					ns.Facts[core] = valCore
@@ -649,4 +662,39 @@ func freeVarStores(fv *ssa.FreeVar) []ssa.Value {
 		}
 	})
 	return out
+}
+
+// constFieldOfLiteral: ptr (after resolving path phis) is a freshly allocated
+// struct literal; returns the constant stored into its field named `field` by
+// the literal's initialisation (unique constant store), if any.
+func constFieldOfLiteral(st *pathState, ptr ssa.Value, field string) (constant.Value, bool) {
+	ptr = st.Resolve(ptr)
+	al, ok := ptr.(*ssa.Alloc)
+	if !ok || al.Referrers() == nil {
+		return nil, false
+	}
+	var val constant.Value
+	n := 0
+	for _, ref := range *al.Referrers() {
+		fa, ok := ref.(*ssa.FieldAddr)
+		if !ok {
+			continue
+		}
+		fv := fieldVarOf(fa)
+		if fv == nil || fv.Name() != field {
+			continue
+		}
+		for _, s := range storesTo(fa) {
+			n++
+			if c, ok := s.Val.(*ssa.Const); ok && c.Value != nil {
+				val = c.Value
+			} else {
+				return nil, false
+			}
+		}
+	}
+	if n == 1 && val != nil {
+		return val, true
+	}
+	return nil, false
 }
